@@ -320,6 +320,8 @@ class Exec:
             return MSet(v.elem, v.t)
         if isinstance(v, MMatrix):
             return MMatrix(v.rows, v.cols, v.t)
+        if isinstance(v, MDict):
+            return MDict(v.kty, v.comps, v.keys, v.arrs)
         return v
 
     def finish(self, st, sig, fnode):
@@ -478,6 +480,11 @@ class Exec:
 
     def st_Assign(self, s, st):
         v = self.eval(s.value, st)
+        if isinstance(v, PyDict) and not v.items and len(s.targets) == 1 \
+                and isinstance(s.targets[0], ast.Name) and s.targets[0].id in self.c.locals:
+            ty = self.c.locals[s.targets[0].id].resolve()
+            v = MDict(ty[1], [ty[2]], z3.K(ty[1].sort(), z3.BoolVal(False)),
+                      [z3.Const(sym.fresh_name('dinit'), z3.ArraySort(ty[1].sort(), ty[2].sort()))])
         if isinstance(v, (EmptyList, EmptySet)) and len(s.targets) == 1 \
                 and isinstance(s.targets[0], ast.Name) and s.targets[0].id in self.c.locals:
             ty = self.c.locals[s.targets[0].id].resolve()
@@ -609,8 +616,21 @@ class Exec:
             if sit.as_long() >= 0:
                 return sit
             return n + sit
-        # non-negative known?  keep ite, solver resolves
+        if spec:
+            # contract expressions index with non-negative indices (or negative literals)
+            return it
+        if self._nonneg(st, it):
+            return it
         return z3.If(it < 0, it + n, it)
+
+    def _nonneg(self, st, it):
+        """cheap entailment check `path condition => it >= 0` (keeps `if` out of index terms)"""
+        s = z3.Solver()
+        s.set('timeout', 200)
+        s.add(*[f for f in st.pc if not z3.is_quantifier(f)])
+        s.add(*st.guards)
+        s.add(it < 0)
+        return s.check() == z3.unsat
 
     def st_If(self, s, st):
         c = self.truthy(self.eval(s.test, st), st)
@@ -762,6 +782,12 @@ class Exec:
                 cur.t = z3.Const(sym.fresh_name('h_' + nme), cur.t.sort())
             elif isinstance(cur, MMatrix):
                 cur.t = z3.Const(sym.fresh_name('h_' + nme), cur.t.sort())
+            elif isinstance(cur, MDict):
+                f = MDict.fresh(cur.kty, cur.comps, 'h_' + nme)
+                cur.keys, cur.arrs = f.keys, f.arrs
+            elif isinstance(cur, CounterVal):
+                f = CounterVal.fresh(cur.kty, 'h_' + nme)
+                cur.cnt, cur.keys = f.cnt, f.keys
             elif isinstance(cur, Val):
                 st.env[nme] = self.fresh_val(cur.ty, st, 'h_' + nme)
             elif isinstance(cur, PyTuple):
@@ -936,7 +962,27 @@ class Exec:
 
     def ex_Tuple(self, n, st, spec):
         if any(isinstance(e, ast.Starred) for e in n.elts):
-            raise OutOfSubset('starred tuple')
+            # (a, *xs, b) -> a sequence (tuple kind); element type taken from the starred part
+            parts = []
+            ety = None
+            for e in n.elts:
+                if isinstance(e, ast.Starred):
+                    sq = self.as_seq(self.eval(e.value, st, spec), st)
+                    if sq is None:
+                        raise OutOfSubset('starred non-sequence')
+                    ety = sq.ty.elem
+                    parts.append(('seq', sq))
+                else:
+                    parts.append(('one', self.eval(e, st, spec)))
+            ty = TSeq(ety, 'tuple')
+            ops = self.ops(st)
+            t = ops.empty(ty)
+            for kind, v in parts:
+                if kind == 'one':
+                    t = ops.build(ty, t, self.to_term(v, ety, st))
+                else:
+                    t = ops.concat(ty, t, v.t)
+            return Val(ty, t)
         return PyTuple([self.eval(e, st, spec) for e in n.elts])
 
     def ex_List(self, n, st, spec):
@@ -1386,6 +1432,8 @@ class Exec:
             return z3.Or(*[self.eq_term(item, c, st) for c in container.items])
         if isinstance(container, MSet):
             return z3.Select(container.t, self.to_term(item, container.elem, st))
+        if isinstance(container, MDict):
+            return container.has(self.to_term(item, container.kty, st))
         if isinstance(container, CounterVal):
             return container.has(self.to_term(item, container.kty, st))
         s = self.as_seq(container, st)
@@ -1461,6 +1509,11 @@ class Exec:
 
     def ex_Attribute(self, n, st, spec):
         base = self.eval(n.value, st, spec)
+        h = self.ms.intrinsics.get('attr:' + n.attr)
+        if h is not None:
+            r = h(self, st, [base], {}, n)
+            if r is not NotImplemented:
+                return r
         if isinstance(base, SObj):
             if n.attr in base.fields:
                 return base.fields[n.attr]
@@ -1480,6 +1533,9 @@ class Exec:
         return Closure(n, st.env)
 
     def ex_JoinedStr(self, n, st, spec):
+        h = self.ms.intrinsics.get('fstring')
+        if h is not None:
+            return h(self, st, [n], {}, n)
         raise OutOfSubset('f-string')
 
     # comprehensions -----------------------------------------------------------------------------
@@ -1753,6 +1809,10 @@ class Exec:
                 base.t = ops.slice(base.ty, base.t, z3.IntVal(0), ln - 1)
                 return v
             if name == 'extend':
+                if isinstance(args[0], GenExp):
+                    lc = ast.ListComp(elt=args[0].node.elt, generators=args[0].node.generators)
+                    ast.copy_location(lc, args[0].node)
+                    args = [self.ex_ListComp(lc, st, spec)]
                 s = self.as_seq(args[0], st)
                 base.t = ops.concat(base.ty, base.t, s.t)
                 return NONE
